@@ -14,6 +14,14 @@ import (
 
 const verifDir = "/verif"
 
+// outDir is where evidence and replay files go (GOVC_OUT overrides it for must-fail runs on scratch copies).
+func outDir() string {
+	if d := os.Getenv("GOVC_OUT"); d != "" {
+		return d
+	}
+	return verifDir
+}
+
 type KnownFinding struct {
 	Property   string `json:"property"`
 	Obligation string `json:"obligation"` // obligation name (exact) or prefix ending in '*'
@@ -111,29 +119,31 @@ func cmdCheck(args []string) int {
 	var vcs []*FuncVC
 	var outOfReach []string
 	for _, k := range keys {
-		fn := P.Func(k)
-		if fn == nil {
+		insts := P.Instances(k)
+		if len(insts) == 0 {
 			fails = append(fails, failure{Obligation: k + "/contract-target", Func: k, Reason: "contract stale: function " + k + " not found in the repository", Status: "missing"})
 			continue
 		}
-		vc := NewFuncVC(P, S, fn, S.Contracts[k])
-		vc.Encode()
-		if len(vc.errs) > 0 {
-			fails = append(fails, failure{Obligation: k + "/contract-resolve", Func: k, Reason: "contract stale or unresolvable: " + strings.Join(vc.errs, "; "), Status: "error"})
-		}
-		for _, u := range vc.unsupported {
-			outOfReach = append(outOfReach, k+": "+u)
-		}
-		// filter clauses labelled for other properties
-		var keep []*Obligation
-		for _, o := range vc.obls {
-			if lp := labelProp(o.Label); lp != "" && lp != pid {
-				continue
+		for _, fn := range insts {
+			vc := NewFuncVC(P, S, fn, S.Contracts[k])
+			vc.Encode()
+			if len(vc.errs) > 0 {
+				fails = append(fails, failure{Obligation: k + "/contract-resolve", Func: k, Reason: "contract stale or unresolvable: " + strings.Join(vc.errs, "; "), Status: "error"})
 			}
-			keep = append(keep, o)
+			for _, u := range vc.unsupported {
+				outOfReach = append(outOfReach, k+": "+u)
+			}
+			// filter clauses labelled for other properties
+			var keep []*Obligation
+			for _, o := range vc.obls {
+				if lp := labelProp(o.Label); lp != "" && lp != pid {
+					continue
+				}
+				keep = append(keep, o)
+			}
+			vc.obls = keep
+			vcs = append(vcs, vc)
 		}
-		vc.obls = keep
-		vcs = append(vcs, vc)
 	}
 	// lemmas
 	lvc := lemmaVC(P, S, pid)
@@ -191,11 +201,12 @@ func cmdCheck(args []string) int {
 			}
 		}
 	}
+	sort.SliceStable(fails, func(i, j int) bool { return failRank(fails[i].Obligation) < failRank(fails[j].Obligation) })
 	// known findings
 	known := loadKnown()
 	violations := 0
 	var knownSeen []string
-	os.MkdirAll(filepath.Join(verifDir, "replays"), 0o755)
+	os.MkdirAll(filepath.Join(outDir(), "replays"), 0o755)
 	var vioLines []string
 	for _, f := range fails {
 		matched := false
@@ -215,7 +226,7 @@ func cmdCheck(args []string) int {
 			continue
 		}
 		violations++
-		rp := filepath.Join(verifDir, "replays", pid+"-"+mangle(f.Obligation)+".json")
+		rp := filepath.Join(outDir(), "replays", pid+"-"+mangle(f.Obligation)+".json")
 		rep := map[string]any{"property": pid, "obligation": f.Obligation, "function": f.Func, "where": f.Where, "goal": f.Desc,
 			"solver_status": f.Status, "solvers_tried": f.Tried, "solver_output": f.Output, "reason": f.Reason,
 			"replay": "no-failing-input-found", "repo": repoDir()}
@@ -262,15 +273,23 @@ func cmdCheck(args []string) int {
 		"wall_s":      round2(wall),
 		"violations":  violations,
 	}
-	os.MkdirAll(filepath.Join(verifDir, "evidence"), 0o755)
+	os.MkdirAll(filepath.Join(outDir(), "evidence"), 0o755)
 	b, _ := json.MarshalIndent(ev, "", " ")
-	os.WriteFile(filepath.Join(verifDir, "evidence", pid+".json"), b, 0o644)
+	os.WriteFile(filepath.Join(outDir(), "evidence", pid+".json"), b, 0o644)
 	fmt.Printf("property %s: %d functions under contract, %d obligations, %d discharged, %d known findings, %d violations, %.1fs\n",
 		pid, len(vcs), nObl, nOK, len(knownSeen), violations, wall)
-	for _, f := range fails {
-		fmt.Printf("  failed: %s [%s] %s %s %s\n", f.Obligation, f.Status, f.Where, trunc(f.Desc, 120), f.Reason)
+	for i, f := range fails {
+		if i >= 15 {
+			fmt.Printf("  ... and %d more failed obligations (all are listed in the evidence and replay files)\n", len(fails)-i)
+			break
+		}
+		fmt.Printf("  failed: %s [%s] %s %s %s\n", f.Obligation, f.Status, f.Where, trunc(f.Desc, 120), trunc(f.Reason, 400))
 	}
-	for _, l := range vioLines {
+	for i, l := range vioLines {
+		if i >= 15 {
+			fmt.Printf("(%d further VIOLATION lines suppressed; replay files are written for all)\n", len(vioLines)-i)
+			break
+		}
 		fmt.Println(l)
 	}
 	if nObl == 0 && len(fails) == 0 {
@@ -324,3 +343,17 @@ func (vc *FuncVC) resetLemma() {
 }
 
 // tryReplay is implemented in replay.go
+
+func failRank(name string) int {
+	switch {
+	case strings.Contains(name, "/contract-"):
+		return 0
+	case strings.Contains(name, "/post:"), strings.Contains(name, "/assert:"), strings.HasPrefix(name, "lemma:"):
+		return 1
+	case strings.Contains(name, "/inv-"), strings.Contains(name, "/exit-assert"), strings.Contains(name, "/pre@"):
+		return 2
+	case strings.Contains(name, "/frame"):
+		return 3
+	}
+	return 4
+}
